@@ -57,12 +57,14 @@ class Prop(common.PropertyCheck):
                 rows[-1]['units'][1] = rng.choice(['a.u.', 'RFI', 'Channel'])
             if i % 2 == 1:
                 rows[-1]['n'] = 400        # exactly the documented minimum number of events: analysed like any other file
-            yield {'odd_headers': i % 2 == 0, 'seed': rng.randrange(1 << 30), 'datatype': dt, 'ninst': ninst,
+            yield {'scatter_res': 256 if i % 3 == 1 or (i % 3 == 0 and i % 2 == 1) else None, 'odd_headers': i % 2 == 0, 'seed': rng.randrange(1 << 30), 'datatype': dt, 'ninst': ninst,
                    'scatter_gain': rng.choice([None, None, 2, 0.5]), 'rows': rows, 'rewrite': rewrite, 'mixed_res': dt == 'I' and i % 3 == 0}
 
     def run_impl(self, case):
         ex = excelgen.Experiment(case['seed'], datatype=case['datatype'], instruments=case['ninst'], scatter_gain=case['scatter_gain'],
                                  mixed_res=case.get('mixed_res', False))
+        if case.get('scatter_res'):
+            ex.scatter_res = case['scatter_res']
         try:
             return self._run(case, ex)
         except Exception as e:
